@@ -41,8 +41,15 @@ def setorder_obligations(report):
 
 def run(report: Report, tier, seed):
     setorder_obligations(report)
+    from vf.runner import run_contracts
+    from vf.core import use_repo
+    use_repo()
+    # the slot numbering is a function of the slots' (id, reserved) pairs alone: it cannot depend on set iteration order
+    run_contracts(report, [("contracts.c10_assign", "AssignSlots", "O11.4")])
     report.trust("python subprocesses with explicit PYTHONHASHSEED as independent fresh processes")
-    report.assume("no deductive obligation yet (reads-frame / restore-on-all-exits contracts): the property is explored by comparing digests of compiled TEAL across histories, hash seeds and repetitions (bounded stand-in)")
+    report.assume("P: the slot numbering (region contract on assignScratchSlotsToSubroutines) fills the gaps left by requested ids in ascending id order - a function of the (id, reserved) pairs, not of "
+                  "set iteration order; F: every other set iteration on the compile path is audited syntactically",
+                  "no reads-frame / restore-on-all-exits contracts: independence of process history is explored by comparing digests of compiled TEAL across histories, hash seeds and repetitions (bounded stand-in)")
     n = 24 if tier == "quick" else 200
     items = [["gen", seed * 100003 + 88000 + i, [4, 6, 8, 9, 10][i % 5]] for i in range(n)] + \
             [["abi", k, v] for k in range(2) for v in (6, 8, 10)] + [["router", k, v] for k in range(1) for v in (6, 8, 10)] + \
